@@ -1,4 +1,4 @@
 SPECIFICATION Spec
 CONSTANTS Level = 2
-INVARIANTS InvCoherent InvSize InvT1 InvT2 InvT3 InvRead
+INVARIANTS InvCoherent InvSize InvT1 InvT2 InvT3 InvRead InvSubset
 CHECK_DEADLOCK FALSE
